@@ -41,6 +41,12 @@ func (t *Term) String() string {
 }
 
 func (t *Term) write(sb *strings.Builder) {
+	if t == nil {
+		// a term the generator could not build (it has reported a generator error): an undeclared
+		// symbol, so that a query containing it is an error for every back end, never a proof
+		sb.WriteString("|malformed-term|")
+		return
+	}
 	if t.Op == "forall" || t.Op == "exists" {
 		sb.WriteString("(" + t.Op + " (")
 		for i, b := range t.Bound {
